@@ -26,3 +26,47 @@ def check(run):
             what='in range and cell>0 => returns the cell bit-for-bit with empty slot; otherwise 0.0 + one '
                  'INVALID_ARGUMENT error with non-empty message; same value with error==NULL'))
     run.parallel(thunks)
+
+
+# ---- Engine B: LineEnergy for plain (non-group) line macros: real arithmetic makes the group branches' FP irrelevant
+def b_lineenergy(cl):
+    from vlib.irsym import Eval, Prim
+    import z3
+    from z3 import BitVec, BitVecVal, SignExt, And, Not, Implies
+    mod = cl.mod
+    ev = Eval(mod, prims={'EdgeEnergy': Prim(), 'CS_FluorLine': Prim()})
+    Z = BitVec('Z', 32); line = BitVec('line', 32)
+    r = ev.call('LineEnergy', [Z, line])
+    r0 = ev.call('LineEnergy', [Z, line], errslot=False)
+    H = cl.hdr
+    groups = [H[n] for n in ('KA_LINE', 'KB_LINE', 'LA_LINE', 'LB_LINE', 'L1N67_LINE', 'L1O45_LINE', 'L1P23_LINE',
+                             'L2P23_LINE', 'L3O45_LINE', 'L3P23_LINE', 'L3P45_LINE', 'KO_LINE', 'KP_LINE')]
+    plain = And(*[line != g for g in groups])
+    LE = ev.uf('LineEnergy_arr|3', [z3.BitVecSort(64)] * 3, z3.RealSort())
+    cell = LE(BitVecVal(0, 64), SignExt(32, Z), SignExt(32, -line - 1))
+    inr = And(Z >= 1, Z <= H['ZMAX'], line <= -1, line >= -H['LINENUM'])
+    ok = And(inr, cell > 0)
+    fns = ['LineEnergy', 'LineEnergyComposed', 'RadRate']
+    cl.add('C01/B/LineEnergy/value', ev, And(plain, ok), And(r.rv == cell, Not(r.errset), r.overwrites == 0),
+           'plain line in range with positive cell: returns LineEnergy_arr[Z][-line-1] itself, slot stays empty', functions=fns)
+    cl.add('C01/B/LineEnergy/fail', ev, And(plain, Not(ok)),
+           And(r.rv == 0, r.errset, r.sets_on_slot == 1, r.errcode() == 1, r.overwrites == 0),
+           'otherwise: 0.0 and exactly one INVALID_ARGUMENT error', functions=fns)
+    cl.add('C01/B/LineEnergy/noslot', ev, z3.BoolVal(True), r0.rv == r.rv,
+           'error==NULL returns the same value (all line macros incl. groups)', functions=fns)
+    cl.side_obligations('C01/B/LineEnergy/side', ev, functions=fns)
+
+
+def check_b(run):
+    from vlib import bcheck
+    from vlib.headers import macros
+    mod = bcheck.load_units(run, ['fluor_lines.c', 'radrate.c'])
+    hdr = macros(run)
+    def g(cl):
+        cl.mod = mod; cl.hdr = hdr; b_lineenergy(cl)
+    bcheck.run_groups(run, [('C01/B/LineEnergy', g, ())])
+
+_check_a = check
+def check(run):
+    _check_a(run)
+    check_b(run)
